@@ -13,7 +13,10 @@ rule; RateLimitTrace.tla judges every limiter instance of every recorded executi
 RateLimit!WindowOK: in every window of its requests during which the rule in force keeps its limit
 and burst, allowed <= burst + rate x window (the window measured from before its first call to
 after its last one)."""
+import concurrent.futures
+import copy
 import os
+import time
 from vlib import core
 
 CACHED = {"cached-clientid": "cached-clientid-limiter", "cached-net": "cached-net-limiter",
@@ -40,28 +43,37 @@ def trace_line(hist, row):
 
 
 def across(hist, row, name, si, sj):
-    """what happens between the requests si and sj of the instance `name` (names the class of a bad window)"""
+    """names the class of a bad window si..sj of the instance `name`: what happened between the two consecutive requests
+    of the instance across which the bucket gained more than its rate allows (located with RateLimiterResult.Tokens; the
+    whole window if no such pair is seen). Naming only: the verdict is TLC's."""
+    obs = {o["step"]: o for o in row["obs"]}
+    mine = [i for i in range(si, sj + 1) if hist[i]["a"] == "Request" and "%s/%s" % (hist[i]["addr"], hist[i]["h"]) == name]
+    lo, hi = si, sj
+    for p, q in zip(mine, mine[1:]):
+        op, oq = obs[p], obs[q]
+        if op["burst"] <= 0 or not op.get("per_ns"):
+            continue
+        gained = oq["tokens"] + (1 if oq["allowed"] else 0) - op["tokens"]
+        if gained > op["burst"] * (oq["ta"] - op["tb"]) / op["per_ns"] + 0.5:
+            lo, hi = p, q
+            break
     cur = {k: hist[0].get(k) for k in ("cid", "nets", "nodes", "suf", "def", "members")}
-    types = {o["step"]: o.get("type") for o in row["obs"]}
-    labels, seen = set(), set()
-    for i, a in enumerate(hist):
-        inside = si < i < sj
+    labels = set()
+    for i, a in enumerate(hist[:hi]):
+        inside = lo < i < hi
         if a["a"] in SETS:
             if inside:
-                labels.add(a["a"] + ("(equal)" if a["set"] == cur[SETS[a["a"]]] else ""))
+                labels.add("equal-rule-set" if a["set"] == cur[SETS[a["a"]]] else "other-rule-set")
             cur[SETS[a["a"]]] = a["set"]
         elif a["a"] == "SetMembers":
             if inside:
-                labels.add("SetMembers" + ("(hash-only)" if sorted(a["members"]) == sorted(cur["members"]) else ""))
+                labels.add("suffrage-state-hash" if sorted(a["members"]) == sorted(cur["members"]) else "membership")
             cur["members"] = a["members"]
         elif a["a"] == "AddNode" and inside:
             labels.add("AddNode")
-        elif a["a"] == "Request" and si <= i <= sj:
-            if "%s/%s" % (a["addr"], a["h"]) == name:
-                seen.add(types.get(i))
-            else:
-                labels.add("other-instance")
-    if len(seen) > 1:
+        elif a["a"] == "Request" and inside:
+            labels.add("other-instance")
+    if obs[lo].get("type") != obs[hi].get("type"):
         labels.add("type-flip")
     return "+".join(sorted(labels)) if labels else "nothing"
 
@@ -99,6 +111,17 @@ def validate(ctx, lines, timeout):
         x, si, sj = [int(v) for v in rest.split(",")]
         out.append((cls, line - 1, x - 1, si, sj))
     return out
+
+
+def subctx(ctx, k):
+    """a view of ctx for one TLC run that goes on at the same time as others: own work directory and counters"""
+    c = copy.copy(ctx)
+    c.work = os.path.join(ctx.work, "p%d" % k)
+    os.makedirs(c.work)
+    c.states = c.transitions = 0
+    c.tlc_cmds = []
+    c._ntlc = 0
+    return c
 
 
 def judge_choice(ctx, hist, row, stats):
@@ -142,26 +165,44 @@ def run(ctx):
     quick = ctx.tier == "quick"
     stats = {"requests": 0, "paths": {}, "model_deviations": 0, "model_only": [], "model_allowed": 0, "model_refused": 0}
     # ---------------------------------------------------------------- histories of the model
-    parts = []
-    for cfg in (["RateLimit_mc_quick.cfg", "RateLimit_mc_tight_quick.cfg"] if quick else
-                ["RateLimit_mc_thorough.cfg", "RateLimit_mc_tight_thorough.cfg", "RateLimit_mc_tight_deep.cfg"]):
-        r, steps = ctx.tlc_dump_steps("RateLimit", cfg, timeout=3000)
+    # the TLC runs are independent: they run side by side, each in its own sub-directory of the work directory
+    t0 = time.time()
+    dumps = (["RateLimit_mc_quick.cfg", "RateLimit_mc_tight_quick.cfg"] if quick else
+             ["RateLimit_mc_thorough.cfg", "RateLimit_mc_tight_thorough.cfg", "RateLimit_mc_tight_deep.cfg"])
+    sims = (("RateLimit_sim.cfg", 31, 80 if quick else 500), ("RateLimit_sim_tight.cfg", 41, 120 if quick else 1500))
+
+    def dump(c, cfg):
+        r, steps = c.tlc_dump_steps("RateLimit", cfg, timeout=3000)
         maxlen = max(len(s) for s in steps)
-        leaves = [s for s in steps if len(s) == maxlen]      # complete histories
-        parts.append((cfg, maxlen - 1, leaves))
+        return (cfg, maxlen - 1, [s for s in steps if len(s) == maxlen])      # complete histories
+
+    def walk(c, cfg, depth, num):
+        _, behs = c.tlc_simulate("RateLimit", cfg, num=num, depth=depth, timeout=1800)
+        return (cfg, depth - 1, [b[-1] for b in behs])      # step of the last state = the whole walk
+
+    def candidate(c, cfg):
+        return c.tlc("RateLimit", cfg, allow_violation=True, timeout=900, count=False)
+
+    jobs = ([(dump, (cfg,)) for cfg in dumps] + [(walk, sm) for sm in sims] +
+            [(candidate, ("RateLimit_mc_candidate.cfg",)), (candidate, ("RateLimit_mc_bucket_candidate.cfg",))])
+    subs = [subctx(ctx, k) for k in range(len(jobs))]
+    with concurrent.futures.ThreadPoolExecutor(max_workers=6 if quick else 2) as ex:
+        futs = [ex.submit(f, c, *args) for (f, args), c in zip(jobs, subs)]
+        done = [f.result() for f in futs]      # a MachineryError of a run is raised here
+    for c in subs:
+        ctx.states += c.states
+        ctx.transitions += c.transitions
+        ctx.tlc_cmds += c.tlc_cmds
+    parts, walks, (rc, rb) = done[:len(dumps)], done[len(dumps):len(dumps) + len(sims)], done[-2:]
     ctx.exhaustive = True
-    rc = ctx.tlc("RateLimit", "RateLimit_mc_candidate.cfg", allow_violation=True, timeout=900, count=False)
     ctx.extra["model_candidate_ImplMatchesChoose"] = ("violated on the transcription (see DeviationOnlyViaCache)"
                                                       if rc.safety_violation else "holds on the transcription")
-    rb = ctx.tlc("RateLimit", "RateLimit_mc_bucket_candidate.cfg", allow_violation=True, timeout=900, count=False)
     if rb.violated != "BoundOK":
         raise core.MachineryError("BoundOK is not violated when Update rebuilds the bucket on a type/checksum change "
                                   "(RateLimit_mc_bucket_candidate.cfg): the model lost its sensitivity\n" + rb.out[-2000:])
     ctx.extra["model_candidate_rebuild_on_type_or_checksum"] = "BoundOK violated (as it must be)"
-    walks = []
-    for cfg, depth, num in (("RateLimit_sim.cfg", 31, 80 if quick else 500), ("RateLimit_sim_tight.cfg", 41, 120 if quick else 1500)):
-        _, behs = ctx.tlc_simulate("RateLimit", cfg, num=num, depth=depth, timeout=1800)
-        walks.append((cfg, depth - 1, [b[-1] for b in behs]))      # step of the last state = the whole walk
+    phase = {"tlc": round(time.time() - t0, 1)}
+    t0 = time.time()
     hists = [h for (_, _, hs) in parts + walks for h in hs]
     ctx.rule = ("every history of " + ", ".join("%d actions of %s (%d)" % (n, c, len(hs)) for (c, n, hs) in parts) + " + " +
                 ", ".join("%d -simulate walks of %s (%d actions)" % (len(hs), c, n) for (c, n, hs) in walks) +
@@ -171,6 +212,8 @@ def run(ctx):
     res = os.path.join(ctx.work, "res.ndjson")
     ctx.vh(["C36", "replay", "--in", cases, "--out", res], timeout=3000)
     rows = core.read_ndjson(res)
+    phase["replay"] = round(time.time() - t0, 1)
+    t0 = time.time()
     if len(rows) != len(hists):
         raise core.MachineryError("harness answered %d of %d histories" % (len(rows), len(hists)))
     calls = 0
@@ -206,6 +249,8 @@ def run(ctx):
     for ln in blines:
         ctx.traces += 1
         ctx.case(["burst", ln["rule"], ln["where"], ln["perturb"], ln["calls"]], nontrivial=True)
+    phase["judge+bursts"] = round(time.time() - t0, 1)
+    t0 = time.time()
     real_refused = sum(1 for ln in lines for s in ln["insts"] for r in s if r[0] > 0 and not r[4])
     for (cls, li, x, si, sj) in validate(ctx, lines + blines, 3000):
         if li >= nh:
@@ -225,13 +270,15 @@ def run(ctx):
                 name, [a["a"] for a in hist]), {"kind": "enforcement-history", "history": hist, "observed": row["obs"]})
             continue
         win = [r for r in s if si <= r[5] <= sj]
-        ctx.violation("enforcement(window-bound;across=%s)" % across(hist, row, name, si, sj),
+        ctx.violation("enforcement(window-bound;refill-across=%s)" % across(hist, row, name, si, sj),
                       "%s: %d requests allowed from step %d to step %d within %d us while the limiter reported the rule %d/%.6fs all "
                       "the time (burst + rate x window = %.4f); history: %s" % (
                           name, sum(r[4] for r in win), si, sj, (win[-1][3] - win[0][2]) * UNIT // 1000, win[0][0], win[0][1] * UNIT / 1e9,
                           win[0][0] + win[0][0] * (win[-1][3] - win[0][2]) / win[0][1],
                           [(a["a"], a.get("addr"), a.get("c"), a.get("members")) for a in hist[:sj + 1]]),
                       {"kind": "enforcement-history", "history": hist, "observed": row["obs"], "instance": name, "window": [si, sj]})
+    phase["validate"] = round(time.time() - t0, 1)
+    ctx.extra["phase_s"] = phase
     strong = [(ln, stronger_reading(ln)) for ln in lines]
     strong = [(ln, b) for (ln, b) in strong if b]
     ctx.extra["stronger_reading(not an alarm)"] = {
@@ -278,7 +325,7 @@ def replay(ctx, path):
     if case.get("kind") == "enforcement-history":
         ln = trace_line(hist, row)
         for (cls, li, x, si, sj) in validate(ctx, [ln], 600):
-            key = "enforcement(%s)" % cls if cls != "window-bound" else "enforcement(window-bound;across=%s)" % across(hist, row, ln["names"][x], si, sj)
+            key = "enforcement(%s)" % cls if cls != "window-bound" else "enforcement(window-bound;refill-across=%s)" % across(hist, row, ln["names"][x], si, sj)
             ctx.violation(key, "%s: more requests allowed from step %d to step %d than burst + rate x window of the rule in force; calls %s" % (
                 ln["names"][x], si, sj, ln["insts"][x]), {"kind": "enforcement-history", "history": hist, "observed": row["obs"]})
         return
